@@ -99,6 +99,8 @@ class Unit:
                 continue
             if not re.fullmatch(r'[\w\s+\-*()]+', m.group(3)):
                 continue
+            if any(it['name'] == 'const ' + m.group(1) for it in self.items):
+                continue
             self.chunks.append(clean_const(m.group(0)))
             self.items.append(dict(name='const ' + m.group(1), kind='const', file=rel, line=s.count('\n', 0, m.start()) + 1))
             n += 1
